@@ -12,6 +12,11 @@
 //       the offer comes from a live pion client in this process; the answer is applied, the
 //       data channel opens and the proxy's datachannelHandler runs; websocket.DefaultDialer is
 //       hooked (its Proxy callback) to record the URL about to be dialled and abort the dial.
+//   namematcher urlseq     <pattern> <allow01> <offer,offer,...>   offer = <raw>;E | <raw>;P;<scheme>;<host>
+//   namematcher urlseqfull <pattern> <allow01> <offer,offer,...>
+//       a history: ONE SnowflakeProxy (and one SignalingServer, one token pool) lives through the whole
+//       line and runs one session per offer, in order; each session is observed exactly as for url /
+//       urlfull.  Result: the per-session results joined by "," (urlseq) or " | " (urlseqfull).
 // The parse components in the case line are produced by the same Go url.Parse (driver
 // zz_verif/namematcher, op urlparse); this driver re-checks them ("parse=" / panic on mismatch).
 package snowflake_proxy
@@ -124,9 +129,13 @@ func verifC06CheckParse(raw string, rest []string) string {
 	return got
 }
 
-func verifC06URL(args []string, full bool) string {
-	pattern, allow, raw := verifC06Str(args[1]), args[2] == "1", verifC06Str(args[3])
-	parse := verifC06CheckParse(raw, args[4:])
+// one proxy with its scripted broker: what a line (single-shot or history) works on
+type verifC06Proxy struct {
+	sf *SnowflakeProxy
+	sb *verifC06Broker
+}
+
+func verifC06NewProxy(pattern string, allow bool) *verifC06Proxy {
 	sf := &SnowflakeProxy{
 		RelayURL:               verifC06ConfiguredRelay,
 		RelayDomainNamePattern: pattern,
@@ -135,15 +144,51 @@ func verifC06URL(args []string, full bool) string {
 		EventDispatcher:        event.NewSnowflakeEventDispatcher(),
 		shutdown:               make(chan struct{}),
 	}
-	defer close(sf.shutdown)
 	tokens = newTokens(0)
 	config = webrtc.Configuration{}
 	bu, _ := url.Parse("http://broker.invalid/")
 	sb := &verifC06Broker{}
 	broker = &SignalingServer{url: bu, transport: sb, keepLocalAddresses: true}
+	return &verifC06Proxy{sf: sf, sb: sb}
+}
 
+func verifC06URL(args []string, full bool) string {
+	pattern, allow, raw := verifC06Str(args[1]), args[2] == "1", verifC06Str(args[3])
+	p := verifC06NewProxy(pattern, allow)
+	defer close(p.sf.shutdown)
+	return p.session(raw, args[4:], full)
+}
+
+// a history of broker-supplied relay URLs on one long-lived proxy
+func verifC06URLSeq(args []string, full bool) string {
+	pattern, allow := verifC06Str(args[1]), args[2] == "1"
+	p := verifC06NewProxy(pattern, allow)
+	defer close(p.sf.shutdown)
+	var out []string
+	for _, offer := range wire.List(args[3]) {
+		parts := strings.Split(offer, ";")
+		if len(parts) != 2 && len(parts) != 4 {
+			return "!badcase"
+		}
+		out = append(out, p.session(verifC06Str(parts[0]), parts[1:], full))
+	}
+	if full {
+		return strings.Join(out, " | ")
+	}
+	return wire.PrintList(out)
+}
+
+// one session of the proxy: the broker answers the poll with the relay URL raw
+func (p *verifC06Proxy) session(raw string, parseArgs []string, full bool) string {
+	sf, sb := p.sf, p.sb
+	parse := verifC06CheckParse(raw, parseArgs)
 	offer := verifC06SharedOffer
 	var clientPC *webrtc.PeerConnection
+	sb.lock.Lock()
+	sb.answered = false
+	sb.lock.Unlock()
+	sb.success = false
+	sb.onAnswer = nil
 	if full {
 		clientPC, offer = verifC06ClientOffer()
 		defer clientPC.Close()
@@ -230,6 +275,9 @@ func TestVerifDriverC06(t *testing.T) {
 		os.Stdout = os.Stderr
 		if len(args) >= 5 && (args[0] == "url" || args[0] == "urlfull") {
 			return verifC06URL(args, args[0] == "urlfull")
+		}
+		if len(args) == 4 && (args[0] == "urlseq" || args[0] == "urlseqfull") {
+			return verifC06URLSeq(args, args[0] == "urlseqfull")
 		}
 		return "!badcase"
 	})
